@@ -527,7 +527,7 @@ def regenerate_and_prove(ctx):
     os.environ['VERIF_REPO'] = lib.REPO
     la = importlib.import_module('tools.regen.logic_ast')
     la.REPO = lib.REPO
-    gen = os.path.join(lib.COQ, 'gen')
+    gen = lib.GEN
     extra = ('-R', gen, 'PMGen')
     names = ['C14_gen_kleene_and', 'C14_gen_kleene_or', 'C14_gen_model_and', 'C14_gen_model_or',
              'C14_gen_or2', 'C14_gen_and2']
